@@ -526,11 +526,23 @@ def structural(prog, text, sql_text, schema, why, expect_cols=None):
     return Outcome("mismatch", prql=text, sql=sql_text, data=data, detail=f"{why}; but SQLite accepts it and returns {names}")
 
 
-def concrete_instances(schema, n=6):
+def concrete_instances(schema, n=8):
     """a few fixed instances with pairwise distinct, non-null values per column (no ties anywhere)"""
     import random
     out = []
-    for s in range(n):
+    # (1) instances whose first columns hold the same set of values in every table, in different row orders: every
+    #     equi-join on the first column matches 1:1, so preconditions that exclude unmatched rows are satisfiable
+    for s in range(n // 2):
+        rnd = random.Random(2000 + s)
+        data = {}
+        k = 3
+        keys = rnd.sample(range(-4, 9), k)
+        for t, cols in schema.items():
+            colvals = [rnd.sample(keys, k)] + [rnd.sample(range(-4, 9), k) for _ in cols[1:]]
+            data[t] = [tuple(colvals[c][i] for c in range(len(cols))) for i in range(k)]
+        out.append(data)
+    # (2) unrelated values
+    for s in range(n - n // 2):
         rnd = random.Random(1000 + s)
         data = {}
         for t, cols in schema.items():
